@@ -1,7 +1,7 @@
 (* C06 -- Time-unit conversion preserves physical quantities.
    Statements only; every proof is `exact <lemma>` from Proofs/P_Time*.v, which are about the
    definitions REGENERATED from starsim/time.py (Gen/Gen_Time.v). *)
-From SS Require Import Model.Prelude Model.L3_Units Gen.Gen_Time Model.L3_TimePar Proofs.P_Time Proofs.P_TimeR.
+From SS Require Import Model.Prelude Model.L3_Units Gen.Gen_Time Gen.Gen_Demog Model.L3_TimePar Proofs.P_Time Proofs.P_TimeR.
 From Coq Require Import QArith Reals.
 
 (* the unit table is the physical one *)
@@ -157,18 +157,21 @@ Proof. eexists; split; [reflexivity|reflexivity]. Qed.
 Theorem C06_inplace_add_differs_refuted : exists p c y1 y2, tp_add p c = Ok y1 /\ tp_values (tp_iadd p c) = Ok y2 /\ ~ y1 == y2.
 Proof. exact inplace_add_differs_refuted. Qed.
 Print Assumptions C06_inplace_add_differs_refuted.
-(* a per-step count divided by the step length gives the rate in its own unit -- when the step is the one of the module that counted; the demographics
-   modules divide by the SIM's step, which is right only when the two coincide (listed finding crude-rates-use-sim-step-length: a yearly Births in a
-   daily sim reports 365.25 times its rate) *)
+(* a per-step count divided by the step length of the module that counted it gives the rate in its own unit, whatever the sim's step; every
+   crude-rate site of the CURRENT source divides by the module's own step (generated table); dividing by the sim's step is off by mdt / sdt
+   (the defect repaired in Births / Deaths / Pregnancy: a yearly Births in a daily sim reported 365.25 times its rate) *)
 Theorem C06_crude_rate_own_step : forall rate alive units dt, 0 < alive -> 0 < units -> 0 < dt -> crude_rate (rate * units * dt * alive) alive units dt == rate.
 Proof. exact crude_rate_own_step. Qed.
-Theorem C06_crude_rate_reported_same_step : forall rate alive units dt, 0 < alive -> 0 < units -> 0 < dt ->
-  crude_rate_reported (rate * units * dt * alive) alive units dt dt == rate.
-Proof. exact crude_rate_reported_same_step. Qed.
-Theorem C06_crude_rate_reported_scaled : forall rate alive units sdt mdt, 0 < alive -> 0 < units -> 0 < sdt -> 0 < mdt ->
-  crude_rate_reported (rate * units * mdt * alive) alive units sdt mdt == rate * (mdt / sdt).
-Proof. exact crude_rate_reported_scaled. Qed.
-Theorem C06_crude_rate_reported_refuted : exists rate alive units sdt mdt, 0 < alive /\ 0 < units /\ 0 < sdt /\ 0 < mdt /\
-  ~ crude_rate_reported (rate * units * mdt * alive) alive units sdt mdt == rate.
-Proof. exact crude_rate_reported_refuted. Qed.
-Print Assumptions C06_crude_rate_own_step. Print Assumptions C06_crude_rate_reported_same_step. Print Assumptions C06_crude_rate_reported_scaled. Print Assumptions C06_crude_rate_reported_refuted.
+Theorem C06_crude_rate_reported_own : forall rate alive units sdt mdt, 0 < alive -> 0 < units -> 0 < mdt ->
+  crude_rate_reported true (rate * units * mdt * alive) alive units sdt mdt == rate.
+Proof. exact crude_rate_reported_own. Qed.
+Theorem C06_crude_rate_sites_divide_by_own_step : forallb snd crude_rate_divisor_gen = true.
+Proof. reflexivity. Qed.
+Theorem C06_crude_rate_reported_sim_step_scaled : forall rate alive units sdt mdt, 0 < alive -> 0 < units -> 0 < sdt -> 0 < mdt ->
+  crude_rate_reported false (rate * units * mdt * alive) alive units sdt mdt == rate * (mdt / sdt).
+Proof. exact crude_rate_reported_sim_step_scaled. Qed.
+Theorem C06_crude_rate_reported_sim_step_refuted : exists rate alive units sdt mdt, 0 < alive /\ 0 < units /\ 0 < sdt /\ 0 < mdt /\
+  ~ crude_rate_reported false (rate * units * mdt * alive) alive units sdt mdt == rate.
+Proof. exact crude_rate_reported_sim_step_refuted. Qed.
+Print Assumptions C06_crude_rate_own_step. Print Assumptions C06_crude_rate_reported_own. Print Assumptions C06_crude_rate_sites_divide_by_own_step.
+Print Assumptions C06_crude_rate_reported_sim_step_scaled. Print Assumptions C06_crude_rate_reported_sim_step_refuted.
